@@ -990,4 +990,82 @@ theorem visD_neutral_compFree (exro : Bool) :
     | false => rfl
     | true => simp only [if_true, Option.isSome_map]; exact P
 
+/-! ### the three theorems together -/
+
+/-- where defaults are neutral (`defaultsNeutral`), validating with `DefaultsSet` accepts exactly when the plain
+request-side validator does -/
+theorem visD_neutral (exro : Bool) (s : RS) (v : V) (hs : s.wf = true) (hv : v.wf = true)
+    (hn : defaultsNeutral exro s v = true) : (visD true exro s v).isSome = visit exro s v := by
+  unfold defaultsNeutral at hn
+  have off := visD_off exro v hv s hs
+  rcases Bool.or_eq_true_iff.mp hn with h | h
+  · have hf : firesD exro s v = false := by simpa using h
+    rw [visD_on_eq_off_of_not_fires exro s v hf, off, guardV_isSome]
+  · simp only [Bool.and_eq_true] at h
+    rw [visD_neutral_compFree exro s h.1 hs h.2 v, off, guardV_isSome]
+
+theorem decodedValue_of_val (reg : List (Str × DecK)) (rb : ReqBody) (ct : Str) (b : BodyIn) (mt : MediaType) (s : RS)
+    (v : V) (ht : b.text ≠ []) (hc : rb.content ≠ []) (hs : contentGet rb.content ct = some mt)
+    (hsch : mt.schema = some s) (hdec : decodeBody reg ct s mt.encs b = .val v) :
+    decodedValue reg rb ct b = some (s, v) := by
+  unfold decodedValue
+  have hc' : rb.content.isEmpty = false := by
+    cases hcc : rb.content with
+    | nil => exact absurd hcc hc
+    | cons _ _ => rfl
+  simp [ht, hc', hs, hsch, hdec]
+
+/-- outside `NoBodyEncoder`, where defaults are neutral and inside the model, `ValidateRequestBody` answers the same
+with and without default-setting -/
+theorem validateRequestBodyD_eq (reg : List (Str × DecK)) (rb : ReqBody) (ct : Str) (b : BodyIn) (exro ds : Bool)
+    (hmod : validateRequestBodyD reg rb ct b exro ds ≠ .unmodelled)
+    (h2 : exclNoBodyEncoder reg rb ct b exro ds = false)
+    (hn : caseNeutral reg rb ct b exro ds = true) (hw : caseWF reg rb ct b = true) :
+    validateRequestBodyD reg rb ct b exro ds = validateRequestBody reg rb ct b exro := by
+  unfold validateRequestBodyD validateRequestBody at *
+  by_cases ht : b.text = []
+  · simp only [ht, if_true]
+  by_cases hc : rb.content = []
+  · simp only [ht, hc, if_true, if_false]
+  simp only [ht, hc, if_false] at hmod ⊢
+  cases hs : contentGet rb.content ct with
+  | none => rfl
+  | some mt =>
+    simp only [hs] at hmod ⊢
+    cases hsch : mt.schema with
+    | none => rfl
+    | some s =>
+      simp only [hsch] at hmod ⊢
+      cases hdec : decodeBody reg ct s mt.encs b with
+      | err => rfl
+      | panic => rfl
+      | unmodelled => rfl
+      | val v =>
+        simp only [hdec] at hmod ⊢
+        have hdv := decodedValue_of_val reg rb ct b mt s v ht hc hs hsch hdec
+        unfold validateValue at hmod ⊢
+        cases ds with
+        | false => rfl
+        | true =>
+          simp only [Bool.not_true, Bool.false_eq_true, if_false] at hmod ⊢
+          unfold caseNeutral at hn
+          unfold caseWF at hw
+          unfold exclNoBodyEncoder at h2
+          simp only [hdv, Bool.not_true, Bool.false_or, Bool.true_and, Bool.and_eq_true] at hn hw h2
+          have hvis := visD_neutral exro s v hw.1 hw.2 hn
+          by_cases hu : (dfltUnderNot s || (!hasEncoder (lookup (base ct) reg) && nestedDflt s && firesD exro s v)) = true
+          · simp [hu] at hmod
+          · simp only [hu, if_false]
+            have h2' : (firesD exro s v && !hasEncoder (lookup (base ct) reg)) = false := by
+              cases hf : firesD exro s v <;> cases he : hasEncoder (lookup (base ct) reg) <;> simp_all
+            cases hx : visD true exro s v with
+            | none =>
+              rw [hx] at hvis
+              simp only [Option.isSome_none] at hvis
+              simp [← hvis]
+            | some v' =>
+              rw [hx] at hvis
+              simp only [Option.isSome_some] at hvis
+              simp [← hvis, h2']
+
 end KinModel.Body
